@@ -29,6 +29,7 @@ type TreeOpts struct {
 	NoNil    bool
 	NoEmpty  bool
 	NilTop   bool
+	ListBias bool // lists of primitives are frequent (policies only matter where lists meet)
 }
 
 func (o TreeOpts) keys() []string {
@@ -57,6 +58,14 @@ func Tree(r *rand.Rand, o TreeOpts, depth int) *model.Node {
 	k := r.Intn(11)
 	if depth <= 0 {
 		k = r.Intn(4)
+		if o.ListBias && r.Intn(3) == 0 {
+			n := model.List()
+			p := o.prims()
+			for i, c := 0, r.Intn(o.width()+1); i < c; i++ {
+				n.A = append(n.A, model.P(p[r.Intn(len(p))]))
+			}
+			return n
+		}
 	}
 	switch {
 	case k < 3:
